@@ -89,6 +89,13 @@ func main() {
 		}
 		add(childSpec{Mode: "origin", LogLevel: "info"}, cfg.BinPlain, 10*time.Minute)
 		add(childSpec{Mode: "dev"}, cfg.BinPlain, 10*time.Minute)
+		add(childSpec{Mode: "poison", LogLevel: "debug"}, cfg.BinPlain, 10*time.Minute)
+		for s := 0; s < cfg.N(3, 10); s++ {
+			add(childSpec{Mode: "sessclean", Shard: s, N: cfg.N(2000, 6000), LogLevel: levels[(s+6)%len(levels)]}, cfg.BinPlain, 10*time.Minute)
+		}
+		if cfg.BinRace != "" {
+			add(childSpec{Mode: "sessclean", Shard: 100, N: cfg.N(600, 2000), Build: "race"}, cfg.BinRace, 15*time.Minute)
+		}
 		for s := 0; s < 3; s++ {
 			add(childSpec{Mode: "acrm", Shard: s, NShards: 3, LogLevel: levels[(s+5)%len(levels)]}, cfg.BinPlain, 10*time.Minute)
 		}
@@ -181,6 +188,7 @@ func finish(cfg vlib.Cfg, rep *vlib.Report) {
 		"Origin sub-table: 26 Origin values x dev on/off x 18 method variants x 9 declared x one credential per class; plus 5 Host header forms (no port, IP:port, local name, IPv6 literal, bare name) x 9 Origins derived from the Host (same, other/no/default port, foreign)",
 		"expiry sub-table: 6 orders of keys with different expiry (one passing its expiry while loaded) x before/after x Bearer/Basic x 11 handlers x 5 methods",
 		"development mode sub-table: every target x method variant x one credential per class",
+		"token-isolation sub-table: 16 handlers that write into the AuthToken of their own request (plain, wrapped, Endpoints of all function types; declared Anyone/Dynamic/User/Admin) x one credential per class x GET/POST, each followed by 11 credential classes x 7 handlers x GET/POST",
 		"preflight-header sub-table: 7 non-OPTIONS methods x 8 Access-Control-Request-Method values (+ 2 with same Origin) x every plain handler (9x9) and Endpoint x one credential per class",
 		"bridge sub-table: every Endpoint x 7 methods x dev on/off",
 	})
@@ -192,6 +200,8 @@ func finish(cfg vlib.Cfg, rep *vlib.Report) {
 	rep.Floor(rep.Counter("sessions_created") >= 100, "sessions_created=%d", rep.Counter("sessions_created"))
 	rep.Floor(rep.Counter("fuzz_headers") >= int64(cfg.N(5000, 500000)), "fuzz_headers=%d", rep.Counter("fuzz_headers"))
 	rep.Floor(rep.Counter("expiry_requests_after") >= 500, "expiry_requests_after=%d", rep.Counter("expiry_requests_after"))
+	rep.Floor(rep.Counter("poison_mutations") >= 200 && rep.Counter("poison_followup_requests") >= 10000, "poison_mutations=%d followups=%d", rep.Counter("poison_mutations"), rep.Counter("poison_followup_requests"))
+	rep.Floor(rep.Counter("sessclean_reset_checks") >= 500 && rep.Counter("cleaner_passes") >= 100, "sessclean_reset_checks=%d cleaner_passes=%d", rep.Counter("sessclean_reset_checks"), rep.Counter("cleaner_passes"))
 	rep.Floor(rep.Counter("acrm_cells") >= 100000, "acrm_cells=%d", rep.Counter("acrm_cells"))
 	rep.Floor(rep.Counter("bridge_requests") >= 100, "bridge_requests=%d", rep.Counter("bridge_requests"))
 	rep.Floor(rep.Counter("wire_requests") >= 50, "wire_requests=%d", rep.Counter("wire_requests"))
@@ -263,6 +273,10 @@ func childMain(dir string) {
 		rerr = runRevoke(w, j, cs)
 	case "expiry":
 		rerr = runExpiry(w, j, cs)
+	case "poison":
+		rerr = runPoison(w, j, cs)
+	case "sessclean":
+		rerr = runSessClean(w, j, cs)
 	case "fuzz":
 		rerr = runFuzz(w, j, cs)
 	case "wire":
